@@ -6,6 +6,7 @@ mod common;
 mod driver;
 mod gen_prog;
 mod prng;
+mod procsim;
 mod sched;
 mod seam;
 mod tape;
